@@ -1780,3 +1780,16 @@ package raft
 //@   loop 1 invariant progress: j >= min && (min <= max ==> j <= max + 1) && (min > max ==> j == min)
 //@   loop 1 invariant deleted_so_far: forall x uint64 :: dom(i.logs, x) == (old(dom(i.logs, x)) && !(min <= x && x < j))
 //@   loop 1 invariant kept_so_far: forall x uint64 :: dom(i.logs, x) ==> i.logs[x] == old(i.logs[x])
+
+// ---------------------------------------------------------------------------
+// C02/C08: which committed entries are handed to the FSM goroutine, each paired with its own future
+//@ func (r *Raft) prepareLog
+//@   requires nonnil: r != nil && l != nil
+//@   ensures  only_fsm_bound_entry_types: (result != nil) == (l.Type == LogBarrier || l.Type == LogCommand || (l.Type == LogConfiguration && r.protocolVersion > 2))
+//@   ensures  pairs_the_entry_with_its_own_future: result != nil ==> result.log == l && result.future == future && isfresh(result)
+
+// C07: the target the leader picks for a leadership transfer is a voter of the latest configuration other than itself
+//@ func (r *Raft) pickServer
+//@   requires nonnil: r != nil
+//@   ensures  picks_another_voter: result != nil ==> result.Suffrage == Voter && result.ID != r.localID
+//@   loop 1 invariant candidate_is_another_voter: pick != nil ==> pick.Suffrage == Voter && pick.ID != r.localID
